@@ -459,6 +459,14 @@ func splitOff(off Term) (root, delta Term) {
 // ElemIdx is the address of element i of slice s.
 func ElemIdx(s Term, i Term) Term {
 	root, delta := splitOff(SOff(s))
+	// a quantified variable in absolute form "(- p base)" indexes straight to p
+	base := Add(root, delta)
+	if strings.HasPrefix(i.S, "(- ") && strings.HasSuffix(i.S, " "+base.S+")") {
+		p := i.S[3 : len(i.S)-len(base.S)-2]
+		if !strings.ContainsAny(p, " ()") {
+			return Term{p, SInt}
+		}
+	}
 	return Add(root, Add(delta, i))
 }
 
